@@ -7,11 +7,12 @@ META = {
     "driver_id": "Edit",
     "coq_targets": ["Props/C02.vo", "Extract/Extract_Edit.vo"],
     "technique": 'Coq invariant / refinement proofs over the executable edit-machine model + step-by-step differential correspondence of the extracted model with the implementation + direct oracle on the implementation',
-    "level_text": 'Theorems (all closed under the global context): C02_generated_is_mechanism (the add_new_action / undo / redo translated on every run from the current action_history.py ARE the abstract two-stack mechanism), C02_timeline (every finite sequence over {edit, undo, redo} on the generated mechanism refines the list+cursor timeline: equal boolean results, current state = state under the cursor, the timeline only grows at its end; parametric in the C01 hypothesis Tr_inv, which Props/C01.v provides as C01_timeline_hypotheses), C02_false_means_nothing, C02_one_step (every top-level user action of the edit-machine model is exactly one history step however many primitive edits it contains; refused, nested and query calls are none), C02_edit_machine_uses_generated. Tie: translator (regenerated every run, fail closed) for the history mechanism + step-by-step differential correspondence of the edit-machine model + a list+cursor reference timeline evaluated on the implementation after every call (undo bursts included). C02_edit_machine_timeline: the timeline theorem instantiated for the edit machine (states, recorded groups, inv_action, Tr = TrI W_dict, equivalence = observational equality), so that together with C01_consistent_* every sequence of accepted edge / swap / node actions, undos and redos refines the list+cursor timeline. C02_sessions_timeline and C02_sessions_undo_redo (Proofs/EditSessions.v): the law for the executable edit machine itself - for every sequence of calls of the whole public interface (edge, swap, node, attribute and stroke edits, undos, redos, queries) from a well-formed state with an empty history, the cursor stays inside the timeline, the current state is observably the state under it, every timeline state is well formed, the timeline is st0 :: ext, and each OUndo / ORedo returns True exactly when the timeline can move and False exactly at its ends.',
+    "level_text": 'Theorems (all closed under the global context): C02_generated_is_mechanism (the add_new_action / undo / redo translated on every run from the current action_history.py ARE the abstract two-stack mechanism), C02_timeline (every finite sequence over {edit, undo, redo} on the generated mechanism refines the list+cursor timeline: equal boolean results, current state = state under the cursor, the timeline only grows at its end; parametric in the C01 hypothesis Tr_inv, which Props/C01.v provides as C01_timeline_hypotheses), C02_false_means_nothing, C02_one_step (every top-level user action of the edit-machine model is exactly one history step however many primitive edits it contains; refused, nested and query calls are none), C02_edit_machine_uses_generated. Tie: translator (regenerated every run, fail closed) for the history mechanism + step-by-step differential correspondence of the edit-machine model + a list+cursor reference timeline evaluated on the implementation after every call (undo bursts included). C02_edit_machine_timeline: the timeline theorem instantiated for the edit machine (states, recorded groups, inv_action, Tr = TrI W_dict, equivalence = observational equality), so that together with C01_consistent_* every sequence of accepted edge / swap / node actions, undos and redos refines the list+cursor timeline. C02_sessions_timeline and C02_sessions_undo_redo (Proofs/EditSessions.v): the law for the executable edit machine itself - for every sequence of calls of the whole public interface (edge, swap, node, attribute and stroke edits, undos, redos, queries) from a well-formed state with an empty history, the cursor stays inside the timeline, the current state is observably the state under it, every timeline state is well formed, the timeline is st0 :: ext, and each OUndo / ORedo returns True exactly when the timeline can move and False exactly at its ends. C02_sessions_from_construction: the same from the constructed start state of any valid raw solution. C02_core_is_generated: one level further down, the queries, the node-id counter, Tracks.undo / redo and the seven basic actions with their inverses of the model equal the code translated on every run from solution_tracks.py, tracks.py, _track_annotator.py and actions/*.py (Gen/Core_gen.v; statement in Proofs/CoreTieBundle.v).',
     "level_note": 'Trusted: Coq kernel, extraction (ExtrOcamlBasic only), OCaml driver drv_Edit.ml, Python harness and oracles. Modelled, not verified: networkx DiGraph dict semantics, numpy indexing, skimage regionprops (symbolic: value = function of key, mask, spacing), psygnal. The theorems are about the hand-written model coq/Model/Edit.v; the tie to /repo is the step-by-step differential execution of the extracted model against the implementation on every run. Tied to the source in a second way: the history mechanism (action_history.py) and the seven composite user actions (user_actions/*.py) are re-translated on every run by fail-closed translators (harness/translate_history.py, translate_user_actions.py; closed idiom tables; runtime combinators Model/PyRt.v) and proved equal to the hand-written model for all arguments (Proofs/HistoryTie.v, UserActionsTie.v); trusted there: the idiom tables and combinators, and the stated conventions (get_time / successors on a missing node do not raise, StopIteration reported as KeyError, feature keys never None).',
     "design_ref": "DESIGN.md section 9 (C02)",
     "assumptions": ['the caller does not pass a lineage id to UserAddNode (outside its documented domain)', 'track_id and lineage_id features stay enabled during editing sessions', 'labels/ids are positive; times are frame indices within the array'],
-    "trusted": ["translators harness/translate_history.py and harness/translate_user_actions.py (closed idiom tables in their docstrings; fail closed) with the runtime combinators coq/Model/PyRt.v",
+    "trusted": ["translator harness/translate_core.py (closed idiom table; fail closed) with coq/Model/PyRt3.v; hand models left under it: regionprops / edge annotator update, bulk compute, networkx and array primitives",
+                "translators harness/translate_history.py and harness/translate_user_actions.py (closed idiom tables in their docstrings; fail closed) with the runtime combinators coq/Model/PyRt.v",
                 "correspondence harness harness/editmachine.py (scenario generator, canonicalisation, numeric references for regionprops / IoU)",
                 "oracles harness/edit_oracles.py"],
 }
@@ -29,6 +30,12 @@ def pre_build(ctx):
     translate_user_actions.regenerate(repo=str(__import__("common").REPO))
     if not translate_user_actions.LAST.get("ok"):
         raise RuntimeError("translator refused user_actions/*.py: %s" % translate_user_actions.LAST.get("msg"))
+    # the code the user actions call: queries, id counter, undo / redo, basic actions (Gen/Core_gen.v)
+    import translate_core
+
+    ok, msg = translate_core.regenerate()
+    if not ok:
+        raise RuntimeError("translator refused the core sources: %s" % msg)
 
 
 def run(ctx):
